@@ -233,6 +233,21 @@ def _by_position(node: ast.AST):
     return node
 
 
+def _constant_index(s: ast.expr, length: int) -> Optional[int]:
+    "The position a constant index refers to (`-1` is the last one); None if `s` is not one"
+    negative = isinstance(s, ast.UnaryOp) and isinstance(s.op, ast.USub)
+    c = s.operand if negative else s  # type: ignore
+    if not isinstance(c, ast.Constant) or not isinstance(c.value, int):
+        return None
+    if not negative:
+        return c.value if c.value >= 0 else None
+    if c.value > length:
+        raise FuncADLIndexError(
+            f"Attempt to access element -{c.value} of a tuple only {length} values long."
+        )
+    return length - c.value if c.value > 0 else 0
+
+
 class FuncADLIndexError(Exception):
     """If we are doing an indexing operation and we are out of range, throw this."""
 
@@ -637,6 +652,17 @@ class simplify_chained_calls(FuncADLNodeTransformer):
             # inside a `First`), the method of a call is left attached to its object.
             obj = self.visit(call_node.func.value)
             method = ast.Attribute(value=obj, attr=call_node.func.attr, ctx=ast.Load())
+            if (
+                is_call_of(obj, "First")
+                and len(obj.args) == 1
+                and _is_op_with_lambda(obj.args[0], "Select")
+                and isinstance(obj.args[0].args[1].body, ast.Dict)
+            ):
+                # The object turned out to stand for a `First(...)`: same as if it had been
+                # written out.
+                return self.select_method_call_on_first(
+                    ast.Call(func=method, args=call_node.args, keywords=call_node.keywords)
+                )
             if isinstance(obj, ast.Dict):
                 # A field of a dictionary that is called (`d.pt()`): the field's value is what
                 # is called.
@@ -665,8 +691,8 @@ class simplify_chained_calls(FuncADLNodeTransformer):
         Only works if index is a non-negative integer constant - anything else
         (a variable, a negative index, a slice) is left as a subscript.
         """
-        n = s.value if isinstance(s, ast.Constant) else None
-        if not isinstance(n, int) or n < 0:
+        n = _constant_index(s, len(v.elts))
+        if n is None:
             return ast.Subscript(v, s, ast.Load())  # type: ignore
         if n >= len(v.elts):
             raise FuncADLIndexError(
@@ -683,8 +709,8 @@ class simplify_chained_calls(FuncADLNodeTransformer):
         Only works if index is a non-negative integer constant - anything else
         (a variable, a negative index, a slice) is left as a subscript.
         """
-        n = s.value if isinstance(s, ast.Constant) else None
-        if not isinstance(n, int) or n < 0:
+        n = _constant_index(s, len(v.elts))
+        if n is None:
             return ast.Subscript(v, s, ast.Load())  # type: ignore
         if n >= len(v.elts):
             raise FuncADLIndexError(
